@@ -13,11 +13,11 @@ class Prop:
                "spec(Pools.Spec.holdsb: outstanding == idle baseline + staged, 0 after Close, on the observed counts)",
                "no-stall(sustained traffic through every drop branch with pools of 2*batch+8+receive buffers)"]
     rule = ("scenario = plan of harness actions on a fresh device with bounded pools (4096) and three remote parties, batch "
-            "configurations (tun,bind,receive functions) in {(1,1,2),(4,2,1),(2,8,2),(3,3,1)}: 13 directed plans per configuration "
+            "configurations (tun,bind,receive functions) in {(1,1,2),(4,2,1),(2,8,2),(3,3,1)}: 14 directed plans per configuration "
             "(outbound branches, inbound transport branches, handshake branches, key rotation, staged overflow > 128 containers, "
             "overflow then down/up, counter limit with out-of-order re-staging, down/up cycles, persistent keepalive, removal, "
-            "identity change, close with packets staged, close while down) + random plans from one PRNG; counts read after every "
-            "step, Close followed by two runtime.GC(); 28 stall scenarios with very small pools; non-trivial = the plan reaches "
+            "identity change, close with packets staged, close while down, rate-limited handshakes under load with a consumed cookie) + random plans from one PRNG; counts read after every "
+            "step, Close followed by two runtime.GC(); 29 stall scenarios with very small pools; non-trivial = the plan reaches "
             "at least 6 different branch kinds and at least one step with packets staged; distinct by content hash")
     assumptions = ["pools are bounded through the package variable device.VerifPoolMax (build tag verif) so that WaitPool.count is maintained",
                    "counts are read at quiescent points only (sim queues empty, device queues empty, all device goroutines parked twice in a row)",
@@ -83,7 +83,8 @@ class Prop:
                  ["transport_" + x for x in ("valid_data", "keepalive", "bad_auth", "replay", "bad_inner_length", "disallowed_source", "bad_inner_version")] +
                  ["transport_no_live_keypair", "skipped_in_receive_loop"] +
                  ["handshake_" + x for x in ("bad_mac1", "initiation_accepted", "initiation_refused", "response_accepted", "response_refused", "cookie_reply", "under_load_cookie_sent")] +
-                 ["peer_removals", "down", "up", "close", "steps_with_full_staged_queue", "steps_with_staged_packets", "identity_changes", "steps_with_counter_limit_restaging"])
+                 ["peer_removals", "down", "up", "close", "steps_with_full_staged_queue", "steps_with_staged_packets", "identity_changes", "steps_with_counter_limit_restaging",
+                  "handshake_under_load_valid_cookie_rate_limiter"])
         tot = [0] * len(names)
         for o in outputs.values():
             v = vlib.parse_n_list(vlib.coq_value(o, "st"))
@@ -154,7 +155,7 @@ class Prop:
         for s in steps:
             ev = s["ev"]
             kinds.add(ev.split()[0])
-            for tok in ("TDrop 0", "TDrop 1", "TDrop 2", "TDrop 3", "TRoute", "DSkip", "DHs 0", "DHs 1", "DHs 2", "DHs 3", "DHs 4", "DHs 5", "DHs 6"):
+            for tok in ("TDrop 0", "TDrop 1", "TDrop 2", "TDrop 3", "TRoute", "DSkip", "DHs 0", "DHs 1", "DHs 2", "DHs 3", "DHs 4", "DHs 5", "DHs 6", "DHs 7"):
                 if tok in ev:
                     kinds.add(tok)
             for v in range(7):
